@@ -32,6 +32,8 @@ def run_sem(ctx, cfg, configs, nontrivial=lambda r: True, label="sem", sample_ev
         n += 1
         ctx.evaluations += len(r["got"])
         key = vlib.sha(r["src"] + json.dumps(r["id"], sort_keys=True))
+        if r["fam"] == "catchvar":
+            key = "catchvar:%d" % r["id"]["i"]      # named, so that known_findings.jsonl can list the specific programs
         if nontrivial(r):
             ctx.nontrivial.add(key)
         if not r["ok"]:
